@@ -39,3 +39,4 @@ CFG['level_text'] += ' Every small honest archive is created a second time into 
 CFG['level_text'] += " Every small honest creation is also repeated with one file's reader failing part-way (six error values): creation must fail; two cases have a go.mod / LICENSE that reports 100 bytes on the first Lstat and MaxGoMod+1 afterwards."
 CFG['level_text'] += ' A LICENSE of MaxLICENSE+1 bytes below the root must be archived like any other file; a third of the bad-module cases pair a usual path with a generated version.'
 CFG['level_text'] += ' A third of the failing-reader repeats fail in Open itself (not-exist, permission, wrapped, plain).'
+CFG['level_text'] += ' The bad-module pool has paths with runes beyond ASCII whose low byte is an allowed ASCII character and versions with non-ASCII digits and Latin-1 letters.'
